@@ -78,6 +78,10 @@ Definition m_union (f : rowsel -> list (list Z)) (a : args) := f (union (dec_sel
 Definition s_union (a : args) : list (list Z) :=
   [zs_of_bools (union_spec (raw_bits (arg 0 a)) (raw_bits (arg 1 a)))].
 
+(* ---- FromIterator<RowSelection>: one group per selection *)
+Definition m_concat (f : rowsel -> list (list Z)) (a : args) := f (concat_sel (map dec_sel a)).
+Definition s_concat (a : args) : list (list Z) := [zs_of_bools (flat_map raw_bits a)].
+
 (* ---- split_off: [sel] [n] -> head, tail *)
 Definition m_split_off (f : rowsel -> list (list Z)) (a : args) : list (list Z) :=
   let (h, t) := split_off (dec_sel (arg 0 a)) (argn 1 a) in f h ++ f t.
@@ -172,6 +176,7 @@ Definition ops_C06 : list (string * opfun) :=
     ("c06.intersection", m_intersection out_den); ("c06.intersection.repr", m_intersection out_repr);
     ("c06.intersection.spec", s_intersection);
     ("c06.union", m_union out_den); ("c06.union.repr", m_union out_repr); ("c06.union.spec", s_union);
+    ("c06.concat", m_concat out_den); ("c06.concat.repr", m_concat out_repr); ("c06.concat.spec", s_concat);
     ("c06.split_off", m_split_off out_den); ("c06.split_off.repr", m_split_off out_repr);
     ("c06.split_off.spec", s_split_off);
     ("c06.counts", m_counts); ("c06.counts.spec", s_counts);
